@@ -13,6 +13,7 @@ type ConcProgram struct {
 	Deterministic bool // the Go result does not depend on the schedule
 	Boundary      bool // outside the subset of the pinned translator: rejecting it is fine, accepting it means translating it faithfully
 	Terminates    bool // every Go run finishes although the result depends on the schedule: the emitted program must not deadlock either
+	Allowed       []uint64 // schedule-dependent programs: the complete set of results Go can produce (by construction); the emitted program must not produce another
 }
 
 // ConcTemplates instantiates every template with seeded parameters.
@@ -435,6 +436,49 @@ func entry() uint64 {
 }
 `)
 	ps[len(ps)-1].Terminates = true
+	// switch on a lock-protected getter while another goroutine advances the state 0 -> 1: Go evaluates the tag once,
+	// so one of the two non-default branches is taken whatever the schedule
+	bnd("b-switch-tag-once", false, hdr+`type Gauge struct {
+	mu *sync.Mutex
+	st uint64
+}
+
+func (g *Gauge) get() uint64 {
+	g.mu.Lock()
+	v := g.st
+	g.mu.Unlock()
+	return v
+}
+
+func (g *Gauge) advance() {
+	g.mu.Lock()
+	g.st = 1
+	g.mu.Unlock()
+}
+
+func entry() uint64 {
+	g := &Gauge{mu: new(sync.Mutex)}
+	wg := new(sync.WaitGroup)
+	wg.Add(1)
+	go func() {
+		g.advance()
+		wg.Done()
+	}()
+	var r uint64 = 0
+	switch g.get() {
+	case 1:
+		r = 10
+	case 0:
+		r = 20
+	default:
+		r = 99
+	}
+	wg.Wait()
+	return r
+}
+`)
+	ps[len(ps)-1].Terminates = true
+	ps[len(ps)-1].Allowed = []uint64{10, 20}
 	// deferred unlock: the result must be read inside the critical section
 	bnd("b-defer-unlock", true, hdr+`type Ctr struct {
 	mu *sync.Mutex
